@@ -651,8 +651,17 @@ def parse_sql(text: str) -> list[dict]:
     return out
 
 
+_PARSE_CACHE: dict[str, dict] = {}
+_VALIDATED: dict[tuple[int, int], tuple] = {}
+
+
 def parse_one(text: str) -> dict:
+    hit = _PARSE_CACHE.get(text)
+    if hit is not None:
+        return hit
     sts = parse_sql(text)
+    if len(sts) == 1 and sts[0]["kind"] in ("select", "insert", "delete", "update", "txn", "pragma") and len(_PARSE_CACHE) < 5000:
+        _PARSE_CACHE[text] = sts[0]  # DML trees are never mutated by the model
     if len(sts) != 1:
         raise SqlUnsupported(f"expected one SQL statement, got {len(sts)}")
     return sts[0]
@@ -897,10 +906,13 @@ class MiniDB:
 
     # ------------------------------------------------------------------ state
     def snapshot(self) -> tuple:
-        return (self.schema.copy(), copy.deepcopy(self.data), self.user_version)
+        self._schema_shared = True  # copy-on-write: DDL copies the schema before changing it
+        return (self.schema, {t: [dict(r) for r in rs] for t, rs in self.data.items()}, self.user_version)
 
     def restore(self, s: tuple) -> None:
-        self.schema, self.data, self.user_version = s[0].copy(), copy.deepcopy(s[1]), s[2]
+        self.schema, self.user_version = s[0], s[2]
+        self._schema_shared = True
+        self.data = {t: [dict(r) for r in rs] for t, rs in s[1].items()}
 
     def state_key(self) -> tuple:
         rows = tuple(sorted((t, tuple(tuple(sorted((k, repr(v)) for k, v in r.items())) for r in rs)) for t, rs in self.data.items()))
@@ -921,6 +933,9 @@ class MiniDB:
         k = st["kind"]
         self.rowcount = -1
         if k in DDL_KINDS:
+            if getattr(self, "_schema_shared", False):
+                self.schema = self.schema.copy()
+                self._schema_shared = False
             err = self.schema.apply(st, nonempty=self.assume_rows or bool(self.data.get(st.get("table") or "")))
             if err:
                 raise Raised("OperationalError", err)
@@ -965,7 +980,7 @@ class MiniDB:
             if st["name"] == "journal_mode":
                 return [((st["value"] or "wal").lower(),)]
             return []
-        if k in ("select", "insert", "delete", "update"):
+        if k in ("select", "insert", "delete", "update") and (id(st), id(self.schema)) not in _VALIDATED:
             for t, c in column_refs(st):
                 if t is None or t == "sqlite_master":
                     continue
@@ -973,6 +988,8 @@ class MiniDB:
                     raise Raised("OperationalError", f"no such table: {t}")
                 if c != "*table*" and c not in self.schema.columns(t):
                     raise Raised("OperationalError", f"no such column: {c}")
+            if len(_VALIDATED) < 20000:
+                _VALIDATED[(id(st), id(self.schema))] = (st, self.schema)  # keeps both alive, so the ids stay unique
         if k == "select":
             return self._select(st, params, None)
         if k == "insert":
@@ -1511,11 +1528,19 @@ class World:
 
 
 def _is_generator(fn: ast.AST) -> bool:
-    return any(isinstance(n, (ast.Yield, ast.YieldFrom)) for n in walk_shallow(fn))
+    v = getattr(fn, "_x_isgen", None)
+    if v is None:
+        v = any(isinstance(n, (ast.Yield, ast.YieldFrom)) for n in walk_shallow(fn))
+        fn._x_isgen = v  # type: ignore[attr-defined]  (cache on the parsed node; never written to disk)
+    return v
 
 
 def _decorators(fn: ast.AST) -> set[str]:
-    return {(dotted(d.func if isinstance(d, ast.Call) else d) or "").rsplit(".", 1)[-1] for d in getattr(fn, "decorator_list", [])}
+    v = getattr(fn, "_x_decs", None)
+    if v is None:
+        v = {(dotted(d.func if isinstance(d, ast.Call) else d) or "").rsplit(".", 1)[-1] for d in getattr(fn, "decorator_list", [])}
+        fn._x_decs = v  # type: ignore[attr-defined]
+    return v
 
 
 class XInterp(Interp):
@@ -1668,11 +1693,15 @@ class XInterp(Interp):
         raise Unsupported(f"attribute `{attr}` of {type(obj).__name__}")
 
     def _mro(self, c: ClassRef) -> list[ClassRef]:
+        cached = getattr(c, "_mro_cache", None)
+        if cached is not None:
+            return cached
         out = [c]
         for r in self.world.repo.mro_names(c.ref):
             if ":" in r and self.world.repo._has_cls(r):
                 mm, cc = self.world.repo.cls(r)
                 out.append(self._classref(r, mm, cc))
+        c._mro_cache = out  # type: ignore[attr-defined]
         return out
 
     def _is_enum(self, c: ClassRef) -> bool:
@@ -1796,20 +1825,27 @@ class XInterp(Interp):
         if h is not None:
             return h(*args, **kw)
         mro = self._mro(c)
-        for cr in mro:
-            for n in cr.node.body:
-                if isinstance(n, FuncNode) and n.name == "__init__":
-                    rec = Record(c.name)
-                    self.call_fn(FnRef(n, cr.module), rec, args, kw)
-                    return rec
-        fields: list[tuple[str, ast.AST | None, Module]] = []
-        for cr in reversed(mro):
-            for n in cr.node.body:
-                if isinstance(n, ast.AnnAssign) and isinstance(n.target, ast.Name):
-                    ann = ast.unparse(n.annotation)
-                    if ann.startswith("ClassVar"):
-                        continue
-                    fields = [f for f in fields if f[0] != n.target.id] + [(n.target.id, n.value, cr.module)]
+        plan = getattr(c, "_ctor_plan", None)
+        if plan is None:
+            init = None
+            for cr in mro:
+                for n in cr.node.body:
+                    if isinstance(n, FuncNode) and n.name == "__init__" and init is None:
+                        init = FnRef(n, cr.module)
+            flds: list[tuple[str, ast.AST | None, Module]] = []
+            for cr in reversed(mro):
+                for n in cr.node.body:
+                    if isinstance(n, ast.AnnAssign) and isinstance(n.target, ast.Name):
+                        if ast.unparse(n.annotation).startswith("ClassVar"):
+                            continue
+                        flds = [f for f in flds if f[0] != n.target.id] + [(n.target.id, n.value, cr.module)]
+            plan = (init, flds)
+            c._ctor_plan = plan  # type: ignore[attr-defined]
+        init, fields = plan
+        if init is not None:
+            rec = Record(c.name)
+            self.call_fn(init, rec, args, kw)
+            return rec
         if not fields and (args or kw):
             raise Unsupported(f"construction of `{c.name}` (no declared fields)")
         names = [f[0] for f in fields]
